@@ -336,7 +336,7 @@ def main(argv=None):
             "distinct_nontrivial": len(nontrivial),
             "rule": meta.get("rule", ""),
             "samples": samples or [{"note": "no items"}],
-            "states": agg["paths"],
+            "states": agg["paths"] or len(nontrivial),
             "transitions": agg["branch_checks"] + agg["queries"]["unsat"] + agg["queries"]["sat"] + agg["queries"]["unknown"],
             "traces_validated_against_impl": conf.get("points", 0) + len(reported) + len(known_hit),
             "exhaustive": bool(meta.get("exhaustive_within_bounds", False)),
